@@ -461,6 +461,27 @@ impl<'a> VisitMut for OptMapInline<'a> {
     }
 }
 
+/// R3 (captured-by-mutable-reference variables of a lifted closure): `x` → `(*x)`
+struct DerefVars {
+    names: Vec<String>,
+    count: usize,
+}
+impl VisitMut for DerefVars {
+    fn visit_expr_mut(&mut self, e: &mut syn::Expr) {
+        syn::visit_mut::visit_expr_mut(self, e);
+        if let syn::Expr::Path(p) = e {
+            if p.qself.is_none() && p.path.segments.len() == 1 && p.path.leading_colon.is_none() {
+                let id = p.path.segments[0].ident.to_string();
+                if self.names.contains(&id) {
+                    let idt = &p.path.segments[0].ident;
+                    self.count += 1;
+                    *e = syn::parse_quote!((*#idt));
+                }
+            }
+        }
+    }
+}
+
 /// R3: finds `rt.transaction(|..| body)` calls in source order.
 struct TxFinder {
     found: Vec<syn::ExprClosure>,
@@ -787,6 +808,13 @@ fn emit_fn(ctx: &mut Ctx, d: &FnDir, out: &mut String) {
     }
 
     strip_attrs_block(&mut block);
+    if let Some(names) = d.opts.get("derefs") {
+        let mut dv = DerefVars { names: names.split(',').map(|x| x.trim().to_string()).collect(), count: 0 };
+        dv.visit_block_mut(&mut block);
+        if dv.count == 0 {
+            die(&format!("lost anchor: derefs={} matches nothing in {}", names, d.path));
+        }
+    }
 
     // ---- R3 in a parent: replace transaction calls by tx_begin / lifted fn / tx_end
     let mut repl = BTreeMap::new();
@@ -1114,7 +1142,18 @@ fn emit_item(ctx: &mut Ctx, file: &str, name: &str, opts: &BTreeMap<String, Stri
                 addr_fold = const_eval(&call.args[0], &ctx.consts);
             }
         }
-        if let Some(v) = addr_fold {
+        if let syn::Expr::Call(call) = &*c.expr {
+            if call.func.to_token_stream().to_string().replace(' ', "") == "ExitCode::new" && call.args.len() == 1 {
+                if let Some(v) = const_eval(&call.args[0], &ctx.consts) {
+                    folded = Some((c.expr.to_token_stream().to_string(), v));
+                    let lit = syn::LitInt::new(&v.to_string(), proc_macro2::Span::call_site());
+                    *c.expr = syn::parse_quote!(ExitCode { value: #lit });
+                    addr_fold = None;
+                }
+            }
+        }
+        if folded.is_some() {
+        } else if let Some(v) = addr_fold {
             folded = Some((c.expr.to_token_stream().to_string(), v));
             let lit = syn::LitInt::new(&v.to_string(), proc_macro2::Span::call_site());
             *c.expr = syn::parse_quote!(Address { id: #lit, proto: 0 });
